@@ -125,7 +125,7 @@ def run(ctx):
         b = base.get(rr['p'])
         if b is None: continue
         if rr['out'] != b:
-            viols.append(dict(kind='assert', key='iso.after:P=%s:Q=%s' % (rr['p'], rr['q']), case=rr['case'], inputs=rr.get('inputs'), replay=dict(kind='vm', op='iso', p=rr['p'], q=rr['q'], destroy=0),
+            viols.append(dict(kind='assert', key='iso.after:P=%s:Q=%s' % (rr['p'], rr['q']), case=rr['case'], inputs=rr.get('inputs'), replay=dict(kind='vm', op='iso', p=rr['p'], q=rr['q'], destroy=0), trust_without_replay=True,
                               msg='output of P=%s in a fresh VM differs after another instance ran Q=%s: %s vs alone %s' % (rr['p'], rr['q'], str(rr['out'])[:160], str(b)[:160])))
     seen = set(); uniq = []
     for v in viols:
